@@ -190,3 +190,21 @@ def fault_cases(tier):
             yield (prog, "default", None, {trig: [("c0", True, layer)]}, True)
             yield (prog, "default", None, {trig: [("c0", "assert", layer)]}, True)
             yield (prog, "default", None, {trig: [("c0", False, layer)]}, True)
+
+
+def nonpass_fault_cases(tier, outcomes=("fail", "error", "pending", "undefined", "skip")):
+    """E1 x E3: one non-passing step, then a single hook fault at every hook invocation of THAT run (a fault meets an
+    element that has already failed: after_step of the failing step, after_scenario / after_tag of its scenario, ...)"""
+    quick = tier == "quick"
+    shapes = [s for s in P.shapes(tier) if P.size(s) <= (3 if quick else 5) and len(s[3]) <= 2]
+    for si, shp in enumerate(shapes):
+        variants = [shp] if quick else [shp, retag(shp, (), (0,), "t")]
+        for v in variants:
+            for nd, pr in P.deviations((v,), 1, outcomes=outcomes):
+                if not nd:
+                    continue
+                prog = (pr[0], P.SECOND_FEATURE)
+                for cfg in (("default",) if quick else ("default", "stop")):
+                    n = hook_count(prog, cfg)
+                    for k in range(n):
+                        yield (prog, cfg, {k: "assert" if k % 2 else "exc"}, None, True)
